@@ -312,7 +312,7 @@ structure CtxDeriv (E : Env) (K : Ctx → Prop) : Prop where
   macros : ∀ (c : Ctx) ms, K c → K { c with macros := ms }
   blockDefs : ∀ (c : Ctx) bd, K c → K { c with blockDefs := bd }
   extends_ : ∀ c : Ctx, K c →
-    K { freshCtx c.vars (E.F.propExtends && c.sandboxed) c.inside with blockDefs := c.blockDefs }
+    K { freshCtx c.vars (E.F.propExtends && c.sandboxed) c.inside with blockDefs := c.blockDefs, parents := c.parents }
   includeClone : ∀ c : Ctx, K c →
     K { vars := [], macros := c.macros, parents := c.asScope :: c.parents, sandboxed := c.sandboxed, inside := c.inside }
   includeFresh : ∀ (c : Ctx) vars sb, K c →
